@@ -55,6 +55,10 @@ CHECKS = {
    technique='complete enumeration of the finite catalogues (README, list files, dispatch literals) with set equality, plus deviation-bounded exhaustive differential runs name-through-generator vs own scheme function',
    text='README appendix 1, the resource list files (parsed independently and through the library) and the dispatch literals of genbbsub.cc are enumerated completely and compared as sets per category (plus the mode table); every name of the union is initialised and shot; for each of the 69 published background names the event obtained through decay0_generator is compared bit for bit (and in deviates consumed) with the nuclide\'s own scheme function plus exactly the documented daughter, for the default stream and every single forced deviate position over a 15-value grid.',
    note='Trusted: the name -> scheme-function table written from the README; double-beta schemes are bound by C02.'),
+ 'C12': dict(level='model_checking', ref='DESIGN.md §2 C12', engine='c12',
+   technique='stateless exhaustive exploration of thread interleavings of the real code under a cooperative scheduler (preemption-bounded, state-hash pruned), plus a free-running ThreadSanitizer pass',
+   text='All schedules of 2-3 harness threads over the interposed synchronisation points of the real library (GSL handler save/disable/restore, quadrature entry/exit, mutex lock/unlock) up to preemption bound 2 (quick) / 3-4 (thorough) are executed, each in a forked child: no abort, no deadlock, handler restored, sequential results; whole-generator harnesses compare each thread\'s events with its sequential events. A separate unserialised ThreadSanitizer run of 8 concurrent generators catches unsynchronised accesses.',
+   note='Trusted: preemption only at interposed points, sequential consistency; TSan for everything below; glibc/libstdc++ internals are not scheduled.'),
 }
 NOT_YET = {
 }
@@ -99,6 +103,7 @@ def main():
             {'name': 'c16', 'path': 'checks/c16.cc', 'serves_properties': ['C16'], 'kind_free_text': 'kernel contract grids'},
             {'name': 'c14', 'path': 'checks/c14.cc', 'serves_properties': ['C14'], 'kind_free_text': 'gA dataset enumerator and sampler grid'},
             {'name': 'c05', 'path': 'checks/c05.cc', 'serves_properties': ['C05'], 'kind_free_text': 'catalogue enumerator and name-vs-scheme differential'},
+            {'name': 'c12', 'path': 'checks/c12.cc', 'serves_properties': ['C12'], 'kind_free_text': 'cooperative scheduler (engine/sched.hpp) + preemption-bounded explorer over link-time interposed sync points; checks/c12_tsan.cc race pass'},
             {'name': 'd0ref', 'path': 'tools/f2cxx.py', 'serves_properties': ['C01', 'C02', 'C06'], 'kind_free_text': 'reference model generated from resources/code/decay0/decay0_2020-04-20.for'},
         ],
         'checks': checks,
